@@ -140,6 +140,14 @@ def rule_type(repo: Repo, name: str, depth=0) -> RuleType:
             if e.attr == "units":
                 return ev(e.value, env)
             return None
+        if isinstance(e, ast.Subscript) or (isinstance(e, ast.Call) and isinstance(e.func, ast.Attribute) and e.func.attr == "get" and e.args):
+            # lookup in a module-level mapping literal whose values are unit constants: any of its values
+            d = e.value if isinstance(e, ast.Subscript) else e.func.value
+            if isinstance(d, ast.Name) and d.id in mod.assigns and isinstance(mod.assigns[d.id][-1], ast.Dict):
+                vals = [ev(v_, env) for v_ in mod.assigns[d.id][-1].values]
+                if vals and all(isinstance(v_, Mono) for v_ in vals):
+                    return ("multi", vals)
+            return None
         if isinstance(e, ast.Call):
             if isinstance(e.func, ast.Attribute) and e.func.attr in ("simplify", "as_coeff_unit") and not e.args:
                 v = ev(e.func.value, env)
@@ -181,6 +189,9 @@ def rule_type(repo: Repo, name: str, depth=0) -> RuleType:
                 kinds.add("none")
             elif isinstance(u, Mono):
                 kinds.add(_mono_kind(u))
+            elif isinstance(u, tuple) and u[0] == "multi":
+                for m_ in u[1]:
+                    kinds.add(_mono_kind(m_))
             else:
                 kinds.add("?")
             continue
